@@ -58,16 +58,16 @@ func c02Rules(p *Prog) *RuleSet {
 			return false
 		}
 		key := m.Prov(args[1])
-		return decoded(m, args[0]) && key.Has("call:fdo.Voucher.DevicePublicKey") && key.Has(voucher) && key.Has(guid)
+		return decodedX(m, args[0]) && key.HasX("call:fdo.Voucher.DevicePublicKey") && key.HasX(voucher) && key.HasX(guid)
 	}
 	arms, _ := msgArmAtoms(p, requestMsgNames)
 	rs := &RuleSet{
 		Atoms: []AtomDef{
 			errNil("guid-read", "Session.GUID returned no error", named("fdo.TO2SessionState.GUID"), nil),
 			errNil("voucher-read", "the voucher for the session's GUID was fetched without error", named("fdo.VoucherPersistentState.Voucher"),
-				func(m *Matcher, _ ssa.CallInstruction, args []ssa.Value) bool { return len(args) == 3 && m.Prov(args[2]).Has(guid) }),
+				func(m *Matcher, _ ssa.CallInstruction, args []ssa.Value) bool { return len(args) == 3 && m.Prov(args[2]).HasX(guid) }),
 			errNil("devkey-ok", "DevicePublicKey of that voucher returned no error", named("fdo.Voucher.DevicePublicKey"),
-				func(m *Matcher, _ ssa.CallInstruction, args []ssa.Value) bool { return m.Prov(args[0]).Has(voucher) }),
+				func(m *Matcher, _ ssa.CallInstruction, args []ssa.Value) bool { return m.Prov(args[0]).HasX(voucher) }),
 			boolTrue("eat-sig-true", "Sign1.Verify of the decoded ProveDevice token under the voucher's device key returned true", named("fdo/cose.Sign1.Verify"), 0, verifyArgs),
 			errNil("eat-sig-noerr", "that Verify returned no error", named("fdo/cose.Sign1.Verify"), verifyArgs),
 			errNil("nonce-read", "Session.ProveDeviceNonce returned no error", named("fdo.TO2SessionState.ProveDeviceNonce"), nil),
@@ -76,18 +76,18 @@ func c02Rules(p *Prog) *RuleSet {
 			equal("ueid-eq", "decoded EAT UEID claim equals RAND||Session.GUID",
 				provAnd(hasProvX("decoded:"), lacksProv(guid)), provAnd(hasProvX(guid), lacksProv("decoded:"))),
 			errNil("setparam-ok", "Session.SetParameter with the token's key-exchange parameter returned no error", named("fdo/kex.Session.SetParameter"),
-				func(m *Matcher, _ ssa.CallInstruction, args []ssa.Value) bool { return len(args) == 3 && decoded(m, args[1]) }),
+				func(m *Matcher, _ ssa.CallInstruction, args []ssa.Value) bool { return len(args) == 3 && decodedX(m, args[1]) }),
 			errNil("xsession-read", "the session's key-exchange state was read without error", named("fdo.TO2SessionState.XSession"), nil),
 			// type-60 responder
 			equal("owner-key-eq", "the configured owner key equals the voucher's current owner key",
 				hasProvX("call:crypto.Signer.Public"), provAnd(hasProvX("call:fdo.Voucher.OwnerPublicKey"), lacksProv("call:crypto.Signer.Public"))),
 			boolTrue("suite-valid", "Suite.Valid(device sig type, owner key) is true for the requested suite", named("fdo/kex.Suite.Valid"), 0,
 				func(m *Matcher, _ ssa.CallInstruction, args []ssa.Value) bool {
-					return len(args) == 3 && decoded(m, args[0]) && m.Prov(args[2]).Has("call:fdo.Voucher.OwnerPublicKey")
+					return len(args) == 3 && decodedX(m, args[0]) && m.Prov(args[2]).HasX("call:fdo.Voucher.OwnerPublicKey")
 				}),
 			boolTrue("kex-available", "kex.Available(requested suite, requested cipher) is true", named("fdo/kex.Available"), 0,
 				func(m *Matcher, _ ssa.CallInstruction, args []ssa.Value) bool {
-					return len(args) == 2 && decoded(m, args[0]) && decoded(m, args[1])
+					return len(args) == 2 && decodedX(m, args[0]) && decodedX(m, args[1])
 				}),
 			// key length
 			AtomDef{Name: "keylen-eq", Doc: "len(key) equals the algorithm's KeySize()", Edge: func(m *Matcher, pd Pred, holds bool) bool {
